@@ -506,6 +506,13 @@ func (vt *Model) print(seq ansi.Print) {
 		},
 	}
 
+	if col > 0 && vt.activeScreen[rw][col-1].Width > 1 {
+		// We are printing over the right half of a wide character:
+		// its left half goes away as well
+		left := &vt.activeScreen[rw][col-1]
+		left.Grapheme = " "
+		left.Width = 1
+	}
 	vt.activeScreen[rw][col] = cell
 
 	// Set trailing cells to a space if wide rune
